@@ -212,25 +212,12 @@ class Beam(_Simu):
             return
 
         # Euler-Bernoulli: transverse v/w use Hermitian shape functions (couple
-        # force and moment DOFs); axial / torsion / pure-rotation DOFs use the
-        # Lagrange path from the base class.
+        # force and moment DOFs) and a load component given in the global axes
+        # acts on the axial and on the transverse fields of an inclined beam,
+        # so every component is integrated with the beam shape functions.
         beamStructure = self.structure
         all_unknowns = self.Get_unknowns(problemType)
-        hermitian = set(all_unknowns) - {"x", "rx"}
-        lagrange_idx = [i for i, u in enumerate(unknowns) if u not in hermitian]
-        hermitian_idx = [i for i, u in enumerate(unknowns) if u in hermitian]
-
-        if lagrange_idx:
-            super().add_lineLoad(
-                nodes,
-                [values[i] for i in lagrange_idx],
-                [unknowns[i] for i in lagrange_idx],
-                problemType,
-                description,
-            )
-
-        if not hermitian_idx:
-            return
+        hermitian_idx = list(range(len(unknowns)))
 
         dof_n = beamStructure.dof_n
         matrixType = MatrixType.beam
@@ -250,6 +237,14 @@ class Beam(_Simu):
         N_e_pg = groupElem.Get_beam_N_e_pg(beamStructure)[elements]
         N_lag_pg = groupElem.Get_N_pg(matrixType)[:, 0, :]
 
+        # The rows of N_e_pg are the components of the kinematic field in the
+        # beam axes (u_local = Pᵀ • u_global), while the load components are
+        # given in the global axes: u_global = P • u_local.
+        P_e = np.zeros((groupElem.Ne, 3, 3))
+        for beam in beamStructure.beams:
+            P_e[groupElem.Get_Elements_Tag(beam.name)] = beam._Calc_P()
+        P_e = P_e[elements]
+
         # Ne * dof_n * nPe DOFs per element (Hermitian N couples force and moment DOFs)
         dofsValues_u = np.zeros((Ne * dof_n * nPe, len(herm_unknowns)))
         dofs_u = np.zeros_like(dofsValues_u, dtype=int)
@@ -268,11 +263,18 @@ class Beam(_Simu):
                 eval_e = eval_n[connect]
                 eval_e_pg = np.einsum("en,pn->ep", eval_e, N_lag_pg, optimize="optimal")
 
+            block = 3 * (row // 3)
+            N_row_e_pg = np.einsum(
+                "ek,epkn->epn",
+                P_e[:, row % 3],
+                np.asarray(N_e_pg)[:, :, block : block + 3, :],
+                optimize="optimal",
+            )
             values_e_pg = np.einsum(
                 "ep,ep,epn->epn",
                 wJ_e_pg,
                 eval_e_pg,
-                N_e_pg[:, :, row, :],
+                N_row_e_pg,
                 optimize="optimal",
             )
             dofsValues_u[:, u] = np.sum(values_e_pg, axis=1).ravel()
